@@ -77,6 +77,23 @@ func init() {
 			e.envState["clock"] = t
 			return nil
 		},
+		zzPath + ".Crash": func(e *Exec, fn *ssa.Function, a []Value) Value { panic(crashSignal{}) },
+		zzPath + ".Try": func(e *Exec, fn *ssa.Function, a []Value) (res Value) {
+			savedCur, savedDepth := e.cur, e.depth
+			res = e.ts.False
+			defer func() {
+				if r := recover(); r != nil {
+					if _, ok := r.(crashSignal); ok {
+						e.cur, e.depth = savedCur, savedDepth
+						res = e.ts.True
+						return
+					}
+					panic(r)
+				}
+			}()
+			e.callValue(a[0], nil)
+			return res
+		},
 		zzPath + ".Go":          inZZGo,
 		zzPath + ".WaitThreads": inZZWaitThreads,
 		zzPath + ".Settle":      inZZSettle,
@@ -841,3 +858,5 @@ func inTimeParse(e *Exec, fn *ssa.Function, a []Value) Value {
 	}
 	return TupleV{mkTime(e, e.ts.Const(64, 0)), e.newStubError("time parse error", nil)}
 }
+
+type crashSignal struct{}
